@@ -263,4 +263,47 @@ example : acceptMetropolis (1 : ℝ) 2 [.rand1 (1 / 1000)] = .ok (true, []) ∧
   · rw [(accept_uphill 1 2 (by norm_num) (by norm_num)).1]; norm_num
   · exact accept_downhill 2 1 (by norm_num) (by norm_num) _
 
+/-! ### the public wrapper `minimize_molecules` (work package WPH) -/
+
+section wrapper
+variable {α : Type} [Scalar α]
+
+/-- `check_backend_installed(warn_missing)`: the flag is whether the compiled backend can be imported; the warning
+    is emitted exactly when it cannot and the caller asked for it -/
+theorem backend_check_spec (installed warnMissing : Bool) :
+    checkBackendInstalled installed warnMissing =
+      (installed, if !installed && warnMissing then 1 else 0) := by
+  cases installed <;> cases warnMissing <;> rfl
+
+/-- **With the compiled backend absent the public wrapper IS the Python engine**: for every objective, move,
+    deformation tuple, budget, start configuration and random tape, `minimize_molecules` returns exactly what
+    `_minimize_molecules` returns — the same configuration (or the same exception) and the same unread tape,
+    i.e. the identical sequence of draws —, emits its warning exactly once, and never touches the compiled
+    engine.  (Every theorem above about `mcMinimize` / `mcRun` is therefore a theorem about the public entry point.) -/
+theorem wrapper_is_python_engine
+    (compiled : Config α → Tape α → Except MCErr (Config α × Tape α))
+    (chi2Fn : Config α → α) (moveFn : MoveFn α) (simType : List Int) (nSteps : Nat)
+    (held0 : Config α) (tape : Tape α) :
+    let out := minimizeMolecules false compiled chi2Fn moveFn simType nSteps held0 tape
+    out.result = mcMinimize chi2Fn moveFn simType nSteps held0 tape ∧ out.warnings = 1 ∧
+      out.viaCompiled = false :=
+  ⟨rfl, rfl, rfl⟩
+
+/-- with the compiled backend installed the Python engine is not run at all (and no warning is emitted): the
+    result is whatever the compiled engine returns — outside this model -/
+theorem wrapper_compiled
+    (compiled : Config α → Tape α → Except MCErr (Config α × Tape α))
+    (chi2Fn : Config α → α) (moveFn : MoveFn α) (simType : List Int) (nSteps : Nat)
+    (held0 : Config α) (tape : Tape α) :
+    let out := minimizeMolecules true compiled chi2Fn moveFn simType nSteps held0 tape
+    out.result = compiled held0 tape ∧ out.warnings = 0 ∧ out.viaCompiled = true :=
+  ⟨rfl, rfl, rfl⟩
+
+end wrapper
+
+/-- non-vacuity of the wrapper theorem: the concrete run above through the public entry point -/
+example : (minimizeMolecules false (fun _ _ => .error .moveErr) exChi2 exMove [0] 1 [⟨1, 0, 0⟩] exTape).result
+    = mcMinimize exChi2 exMove [0] 1 [⟨1, 0, 0⟩] exTape :=
+  (wrapper_is_python_engine _ exChi2 exMove [0] 1 [⟨1, 0, 0⟩] exTape).1
+
 end C09
